@@ -134,7 +134,7 @@ def c04_q(ctx):
 
 
 # ---------------------------------------------------------------- C04-S
-@rule("C04", "C04-S", 4, "the sender never manufactures a success outcome: its delivery code / file status come from the Finished PDU or the constructor defaults")
+@rule("C04", "C04-S", 4, "the sender never manufactures a success outcome: its delivery code / file status come from the Finished PDU or the constructor defaults", also=("C01",))
 def c04_s(ctx):
     fns = impl_and_closures(ctx, SEND)
     _need(fns, "impl SendTransaction", "C04-S")
